@@ -20,7 +20,8 @@ RULE = (
     "volumes {5,12} x pages {10,345}; contexts: 9 context slots (pin cite, year, court, parties, parenthetical, prose before/"
     "after, spelling, nominative parenthetical) with <= 2 deviations for 12 representative editions; pool: per edition "
     "{canonical, variations, other page, other volume, other reporter, short form x2, placeholder page x2, law x2, journal x2, id x2, "
-    "unknown x2} all ordered pairs and triples. distinct = distinct text/pair; non-trivial = pair of distinct objects."
+    "unknown x2, copy/deepcopy/pickle copies} all ordered pairs and triples; laws: all ordered pairs of the example citations of "
+    "every law and journal source. distinct = distinct text/pair; non-trivial = pair of distinct objects."
 )
 ASSUMPTIONS = [
     "a variation is 'unambiguous' when the extracted citation has exactly one candidate edition and it is the edition the database maps it to",
@@ -53,6 +54,17 @@ def setup(tier, seed):
                 vs = sorted(v for v, t in src["variations"].items() if t == ed_name)
                 eds.append((ed_name, vs))
     _ED["eds"] = eds
+    from reporters_db import JOURNALS, LAWS
+
+    le = {}
+    for db in (LAWS, JOURNALS):
+        for key in sorted(db):
+            exs = []
+            for src in db[key]:
+                exs += src.get("examples", [])
+            if len(exs) >= 1:
+                le[key] = exs
+    _ED["law_examples"] = le
 
 
 def bounds(tier):
@@ -192,6 +204,16 @@ def build_pool(ed_name, variations):
     add("law-2", "See Mass. Gen. Laws ch. 1, § 2 (West 1999).", "Mass. Gen. Laws ch. 1, § 2", M.FullLawCitation, ("law", 1), "law")
     add("journal-1", "5 Minn. L. Rev. 10", "5 Minn. L. Rev. 10", M.FullJournalCitation, ("journal", 1), "journal")
     add("journal-2", "See 5 Minn. L. Rev. 10, 12 (1999).", "5 Minn. L. Rev. 10", M.FullJournalCitation, ("journal", 1), "journal")
+    # copies: a copy of a value-hashed citation is equal to it; a copy of an identity-hashed one is another
+    # citation object and must not be (the originals are hashed first, as any earlier comparison would)
+    import copy
+    import pickle
+
+    for label, obj, doc, kind in list(items):
+        if label in ("canonical", "placeholder-1", "short-1"):
+            hash(obj)
+            for how, cp in (("copy", copy.copy(obj)), ("deepcopy", copy.deepcopy(obj)), ("pickle", pickle.loads(pickle.dumps(obj)))):
+                items.append((f"{label}-{how}", cp, doc, kind))
     for n in (1, 2):
         c = [x for x in get_citations("Id. at 5.") if isinstance(x, M.IdCitation)]
         items.append((f"id-{n}", c[0], None, "id"))
@@ -235,9 +257,29 @@ def check_pool(ed_name, variations):
     return res, n
 
 
+def law_pairs(key):
+    """All ordered pairs of the example citations of one LAWS/JOURNALS source: equal iff the extracted groups
+    and candidate editions are the same."""
+    res = []
+    cits = []
+    for ex in _ED["law_examples"].get(key, []):
+        cs = [c for c in get_citations(ex) if isinstance(c, (M.FullLawCitation, M.FullJournalCitation))]
+        if len(cs) == 1:
+            cits.append((ex, cs[0]))
+    for (ea, a), (eb, b) in itertools.product(cits, repeat=2):
+        same = type(a) is type(b) and dict(a.groups) == dict(b.groups) and sorted(e.short_name for e in a.all_editions) == sorted(e.short_name for e in b.all_editions)
+        e = a == b
+        if e != same or (e and hash(a) != hash(b)) or ((M.Resource(a) == M.Resource(b)) != same):
+            res.append(("law-eq", f"{ea!r} == {eb!r} is {e} (resource {M.Resource(a) == M.Resource(b)}), groups {dict(a.groups)} vs {dict(b.groups)}"))
+    return res, len(cits)
+
+
 def replay(case):
     setup("replay", 0)
     k = case["kind"]
+    if k == "laws":
+        res, _ = law_pairs(case["key"])
+        return [{"msg": f"{lab}: {det}", "label": lab} for lab, det in res]
     if k == "variation":
         res, _ = check_variation(case["edition"], case["variation"], case["vol"], case["page"])
     elif k == "context":
@@ -258,6 +300,8 @@ def shards(tier, seed):
         out.append({"part": "pool", "r": r, "n": 32, "stride": 1 if tier == "thorough" else 1})
     for e in CTX_EDS:
         out.append({"part": "context", "edition": e, "bound": 2 if tier == "quick" else 3})
+    for r in range(8):
+        out.append({"part": "laws", "r": r, "n": 8})
     return out
 
 
@@ -289,6 +333,12 @@ def run_shard(sh):
                         res, status = check_variation(ed_name, var, vol, page)
                         case = {"kind": "variation", "edition": ed_name, "variation": var, "vol": vol, "page": page}
                         record(case, h64([ed_name, var, vol, page]), res, var is not None, status)
+        return st
+    if sh["part"] == "laws":
+        for key in sorted(_ED["law_examples"])[sh["r"] :: sh["n"]]:
+            res, n = law_pairs(key)
+            record({"kind": "laws", "key": key}, h64(["laws", key]), res, n >= 2)
+            st.transitions += n * n
         return st
     if sh["part"] == "pool":
         for ed_name, vs in eds[sh["r"] :: sh["n"]]:
